@@ -4,10 +4,14 @@
 namespace {
 
 // ================================================================================================ C09 Barrier
-vh::Outcome run_barrier(const vh::Case& c) {
+// populations for the "for any number of participants / waiters" clauses: on and around the wrap-around points of 7- and 8-bit counters
+static const int kCrowd[8] = {3, 126, 127, 128, 129, 255, 256, 257};
+
+vh::Outcome run_barrier(const vh::Case& c, bool crowd = false) {
     reset_case_globals();
     vh::Outcome out;
     int N = 1 + (c.cfg.size() > 0 ? c.cfg[0] % 5 : 1);          // participants 1..5 (1: every wait returns at once)
+    if (crowd) N = kCrowd[c.cfg.size() > 0 ? c.cfg[0] % 8 : 0];
     int G = 1 + (c.cfg.size() > 1 ? c.cfg[1] % 4 : 0);          // generations 1..4
     std::vector<int> drop((size_t)N, 1000);                      // generation at which the participant drops (its last call)
     std::vector<std::vector<int>> pause((size_t)N);
@@ -37,7 +41,7 @@ vh::Outcome run_barrier(const vh::Case& c) {
                         vrt::fail("early-release", "participant " + std::to_string(p) + " returned from generation " + std::to_string(g) + " after " +
                                                        std::to_string(arrivals[(size_t)g]) + " of " + std::to_string(expected[(size_t)g]) + " arrivals");
                     left[(size_t)g]++;
-                    for (int q = 0; q < N; ++q) if (drop[(size_t)q] >= g && datum[(size_t)(q * G + g)]->read() != uint64_t(100 + g))
+                    for (int q = 0; q < (crowd ? std::min(N, 3) : N); ++q) if (drop[(size_t)q] >= g && datum[(size_t)(q * G + g)]->read() != uint64_t(100 + g))
                         vrt::fail("publication", "data written before arriving at the barrier is not visible after the barrier released");
                 }
             });
@@ -172,7 +176,7 @@ vh::Outcome run_trigger(const vh::Case& c) {
     std::vector<long> trig_ret(ctl.size(), -1);      // step at which the i-th controller op (a successful trigger) returned
     long last_act_call = init_active ? 0 : -1;       // call step of the latest activate() that the model says succeeds
     long last_tr_call = -1;                          // call step of the latest trigger()/reset()
-    bool lbl_probe = false, lbl_second = false, lbl_second_reset = false;
+    bool lbl_probe = false, lbl_second = false, lbl_second_reset = false, lbl_nonpos = false;
     struct CtlRec { long call, ret; TvModel after; };
     std::vector<CtlRec> ctl_log;                     // main controller calls with the model state after each
     int tr_in_flight = 0; long last_tr_ret = -1;     // trigger()/reset() calls of any thread: in flight now / latest return step
@@ -253,7 +257,7 @@ vh::Outcome run_trigger(const vh::Case& c) {
                     if (second_resetter) {
                         // only termination is judged in this mode
                         if (kind == 0 && all_finals_inactive) (void)tv.wait();
-                        else if (kind == 0 || kind == 1) (void)tv.wait_for(std::chrono::milliseconds(20)); else (void)tv.wait_forActivation(std::chrono::milliseconds(20));
+                        else if (kind == 0 || kind == 1) (void)tv.wait_for(std::chrono::duration_cast<std::chrono::milliseconds>(timed_arg(op.a, false))); else (void)tv.wait_forActivation(std::chrono::duration_cast<std::chrono::milliseconds>(timed_arg(op.a, false)));
                         if (vrt::me().blocking_ops) lbl_blocked_wait = true;
                         continue;
                     }
@@ -267,7 +271,8 @@ vh::Outcome run_trigger(const vh::Case& c) {
                     bool probed_active = false; long act_seen = -2;
                     if ((kind == 0 || kind == 1) && (op.a & 1 || true) && (op.b & 1)) { if (tv.isActive()) { probed_active = true; act_seen = last_act_call; lbl_probe = true; } }
                     if (kind == 0 || kind == 1) {
-                        bool r = kind == 0 ? tv.wait() : tv.wait_for(std::chrono::milliseconds(20));
+                        if (kind == 1 && (op.a & 7) >= 4) lbl_nonpos = true;
+                        bool r = kind == 0 ? tv.wait() : tv.wait_for(std::chrono::duration_cast<std::chrono::milliseconds>(timed_arg(op.a, false)));
                         if (r && probed_active && act_seen >= 0 && tr_in_flight == 0 && last_tr_ret < act_seen)
                             vrt::fail("wait-early", "wait returned true although the waiter had seen the variable active and every trigger()/reset() call had returned before that activation began");
                         if (r) for (size_t ti = 0; ti < trig_ret.size(); ++ti) if (trig_ret[ti] >= 0 && trig_ret[ti] < wait_call && datum[ti]->read() != uint64_t(55))
@@ -292,7 +297,8 @@ vh::Outcome run_trigger(const vh::Case& c) {
                         }
                     } else {
                         bool r = true;
-                        if (kind == 2) tv.waitActivation(); else r = tv.wait_forActivation(std::chrono::milliseconds(20));
+                        if (kind == 3 && (op.a & 7) >= 4) lbl_nonpos = true;
+                        if (kind == 2) tv.waitActivation(); else r = tv.wait_forActivation(std::chrono::duration_cast<std::chrono::milliseconds>(timed_arg(op.a, false)));
                         bool blocked = vrt::me().blocking_ops != b0;
                         if (blocked) lbl_blocked_wait = true;
                         if (r) {
@@ -326,6 +332,7 @@ vh::Outcome run_trigger(const vh::Case& c) {
     if (lbl_wait_released) out.labels.push_back("blocked-waiter-released");
     if (lbl_timeout) out.labels.push_back("timed-out");
     if (lbl_probe) out.labels.push_back("probed-active-before-wait");
+    if (lbl_nonpos) out.labels.push_back("non-positive-timeout");
     if (lbl_second) out.labels.push_back("second-triggerer");
     if (lbl_second_reset) out.labels.push_back("second-resetter");
     if (out.res.spurious_wakes) out.labels.push_back("spurious-wake");
@@ -333,11 +340,79 @@ vh::Outcome run_trigger(const vh::Case& c) {
     return out;
 }
 
+
+#if VRT_MAXF >= 264
+// ================================================================================================ crowds (build flavour "crowd": hundreds of fibers)
+inline int fibers_parked_on_cv() { int n = 0; for (vrt::Fiber* f : vrt::rt().fibers) if (!f->done && f->pend == vrt::P_CV) n++; return n; }
+
+// Latch: W waiters blocked in wait() (or still on their way in, mode 1), then exactly `count` arrivals: every waiter returns
+vh::Outcome run_latch_crowd(const vh::Case& c) {
+    reset_case_globals();
+    vh::Outcome out;
+    int W = kCrowd[c.cfg.size() > 0 ? c.cfg[0] % 8 : 0];
+    int count = 1 + (c.cfg.size() > 1 ? c.cfg[1] % 3 : 0);
+    bool all_blocked_first = !(c.cfg.size() > 2 && c.cfg[2] % 3 == 2);
+    int returned = 0, parked_at_open = 0;
+    out.res = vrt::run(c.sched, [&] {
+        gc::Latch latch(count);
+        Tracked datum(uint64_t(0));
+        for (int i = 0; i < W; ++i) vrt::spawn([&] { latch.wait(); if (datum.read() != uint64_t(7)) vrt::fail("publication", "data written before arrive() is not visible after wait() returned"); returned++; });
+        if (all_blocked_first) { int guard = 0; while (fibers_parked_on_cv() < W && ++guard < 200000) vrt::yield_now(); }
+        datum.set(uint64_t(7));
+        for (int k = 0; k < count; ++k) { if (k == count - 1) parked_at_open = fibers_parked_on_cv(); latch.arrive(); }
+        vrt::join_all();
+        if (returned != W) vrt::fail("not-released", std::to_string(W - returned) + " of " + std::to_string(W) + " waiters never returned from wait()");
+    });
+    out.labels.push_back("waiters=" + std::to_string(W));
+    if (parked_at_open >= W) out.labels.push_back("all-blocked-when-opened");
+    out.nontrivial = parked_at_open >= W / 2;
+    return out;
+}
+
+// TriggerVariable: W waiters in wait() / waitActivation(), one controller
+vh::Outcome run_trigger_crowd(const vh::Case& c) {
+    reset_case_globals();
+    vh::Outcome out;
+    int W = kCrowd[c.cfg.size() > 0 ? c.cfg[0] % 8 : 0];
+    int mode = c.cfg.size() > 1 ? c.cfg[1] % 3 : 0;            // 0: trigger releases wait(); 1: reset releases wait(); 2: activate releases waitActivation()
+    bool all_blocked_first = !(c.cfg.size() > 2 && c.cfg[2] % 3 == 2);
+    int returned = 0, parked = 0;
+    out.res = vrt::run(c.sched, [&] {
+        gc::TriggerVariable tv(mode != 2);
+        for (int i = 0; i < W; ++i) vrt::spawn([&] {
+            if (mode == 2) tv.waitActivation(); else if (!tv.wait()) vrt::fail("wait-false", "untimed wait() returned false");
+            returned++;
+        });
+        if (all_blocked_first) { int guard = 0; while (fibers_parked_on_cv() < W && ++guard < 200000) vrt::yield_now(); }
+        parked = fibers_parked_on_cv();
+        if (mode == 0) { if (!tv.trigger()) vrt::fail("controller-result", "trigger() on an active variable returned false"); }
+        else if (mode == 1) tv.reset();
+        else if (!tv.activate()) vrt::fail("controller-result", "activate() on an inactive variable returned false");
+        vrt::join_all();
+        if (returned != W) vrt::fail("not-released", std::to_string(W - returned) + " of " + std::to_string(W) + " blocked waiters were not released");
+    });
+    out.labels.push_back("waiters=" + std::to_string(W));
+    out.labels.push_back(mode == 0 ? "released-by-trigger" : mode == 1 ? "released-by-reset" : "released-by-activate");
+    out.nontrivial = parked >= W / 2;
+    return out;
+}
+
+vh::GenSpec crowd_spec(bool th, std::vector<int> cfg) { vh::GenSpec g; g.nfibers = 2; g.max_ops = 2; g.ncodes = 1; g.amax = 8; g.bmax = 4; g.cfg_max = cfg; g.sched_len = th ? 96 : 64; g.aux_len = 24; g.aux_density = 10; g.step_budget = 60000; return g; }
+vh::Register rbc("C09c", crowd_spec(false, {8, 3}), crowd_spec(true, {8, 3}), [](const vh::Case& c) { return run_barrier(c, true); },
+                 "as C09 with 3 / 126..129 / 255..257 participants (1..3 generations, the first two participants follow generated drop/pause programs); non-trivial as C09");
+vh::Register rlc("C10c", crowd_spec(false, {8, 3, 3}), crowd_spec(true, {8, 3, 3}), run_latch_crowd,
+                 "Latch(count 1..3) with 3 / 126..129 / 255..257 waiters; in two thirds of the cases every waiter is parked on the condition variable before the first arrive(); exactly count arrivals; "
+                 "every waiter must return and see the published datum; non-trivial = at least half of the waiters were parked when the last arrival was made");
+vh::Register rtc("C11c", crowd_spec(false, {8, 3, 3}), crowd_spec(true, {8, 3, 3}), run_trigger_crowd,
+                 "TriggerVariable with 3 / 126..129 / 255..257 threads blocked in wait() (released by trigger() or by reset()) or in waitActivation() (released by activate()); every one must return; "
+                 "non-trivial = at least half of them were parked on the condition variable when the controller call was made");
+#endif
+
 vh::GenSpec bspec(bool th) { vh::GenSpec g; g.nfibers = 5; g.max_ops = 4; g.ncodes = 1; g.amax = 8; g.bmax = 4; g.cfg_max = {5, 4}; g.sched_len = th ? 224 : 160; g.aux_len = 32; g.aux_density = 20; return g; }
 vh::GenSpec lspec(bool th) { vh::GenSpec g; g.nfibers = 4; g.max_ops = th ? 5 : 3; g.ncodes = 3; g.amax = 1; g.bmax = 3; g.cfg_max = {5, 2}; g.sched_len = th ? 160 : 112; g.aux_len = 32; g.aux_density = 20; return g; }
-vh::GenSpec tspec(bool th) { vh::GenSpec g; g.nfibers = 4; g.max_ops = th ? 6 : 5; g.ncodes = 12; g.amax = 1; g.bmax = 3; g.cfg_max = {3, 3}; g.sched_len = th ? 192 : 144; g.aux_len = 40; g.aux_density = 25; return g; }
+vh::GenSpec tspec(bool th) { vh::GenSpec g; g.nfibers = 4; g.max_ops = th ? 6 : 5; g.ncodes = 12; g.amax = 8; g.bmax = 3; g.cfg_max = {3, 3}; g.sched_len = th ? 192 : 144; g.aux_len = 40; g.aux_density = 25; return g; }
 
-vh::Register rb("C09", bspec(false), bspec(true), run_barrier,
+vh::Register rb("C09", bspec(false), bspec(true), [](const vh::Case& c) { return run_barrier(c); },
                 "N in 2..5 participants x G in 1..4 generations with generated drop generations, pauses, schedules and spurious wake-ups; non-trivial = a participant entered generation g+1 "
                 "while another had not yet left g (lap) with G>=2, or a participant dropped");
 vh::Register rl("C10", lspec(false), lspec(true), run_latch,
